@@ -108,6 +108,40 @@ void h_mt_ref(void)
 	FRGV_CANARY();
 }
 
+/* mt19937 against the recurrence of the paper, for EVERY state (class P: the loops run exactly 624 times, fully unrolled, state symbolic).
+ * Spec (Matsumoto & Nishimura 1998, in-place form): for k = 0..623: y = (x[k] & 0x80000000) | (x[(k+1) mod 624] & 0x7fffffff);
+ * x[k] = x[(k+397) mod 624] ^ (y >> 1) ^ (y odd ? 0x9908b0df : 0); output = tempering of x[ctr]. */
+#ifndef MT_J
+#define MT_J 623
+#endif
+static unsigned mt_temper(unsigned y) { y ^= y >> 11; y ^= (y << 7) & 0x9d2c5680U; y ^= (y << 15) & 0xefc60000U; y ^= y >> 18; return y; }
+void h_mt_twist(void)
+{
+	struct mt m; unsigned spec[624];
+	for (int i = 0; i < 624; i++) { m._st[i] = (unsigned)nondet_size_t(); spec[i] = m._st[i]; }
+	m._ctr = 624;                                     /* state exhausted: the next call regenerates all 624 words */
+	for (int k = 0; k < 624; k++) {
+		unsigned y = (spec[k] & 0x80000000U) | (spec[(k + 1) % 624] & 0x7fffffffU);
+		spec[k] = spec[(k + 397) % 624] ^ (y >> 1) ^ ((y & 1) ? 0x9908b0dfU : 0);
+	}
+	unsigned r = mt_op_call(&m);
+	const int j = MT_J;              /* one obligation per word index (a symbolic index into 624 symbolic words is beyond the solver) */
+	__CPROVER_assert(m._st[j] == spec[j], "mt19937: word j of the regenerated state follows the recurrence, for an arbitrary state");
+	__CPROVER_assert(r == mt_temper(spec[0]) && m._ctr == 1, "mt19937: the output is the tempered first word");
+	unsigned r2 = mt_op_call(&m);
+	__CPROVER_assert(r2 == mt_temper(spec[1]) && m._ctr == 2 && m._st[j] == spec[j], "mt19937: the following call tempers the next word and leaves the state alone");
+	FRGV_CANARY();
+}
+void h_mt_seed(void)
+{
+	struct mt m; unsigned s = (unsigned)nondet_size_t();
+	mt_seed(&m, s);
+	const int j = MT_J < 1 ? 1 : MT_J;
+	__CPROVER_assert(m._st[0] == s && m._st[j] == 1812433253U * (m._st[j - 1] ^ (m._st[j - 1] >> 30)) + (unsigned)j && m._ctr == 624,
+	                 "mt19937::seed: x[0] = s, x[j] = 1812433253 * (x[j-1] ^ (x[j-1] >> 30)) + j, state marked exhausted");
+	FRGV_CANARY();
+}
+
 /* ---- insertion_sort with a comparator drawn from a family of strict weak orders
  * ASSUMED: the comparator is a pure strict weak order: <, >, or < on keys with the low bit masked (ties) */
 int frgv_cmp_mode;
@@ -140,4 +174,17 @@ void h_sort(void)
 	size_t i = nondet_size_t(), j = nondet_size_t();
 	__CPROVER_assume(i < j && j < n);
 	__CPROVER_assert(!frgv_vcomp_op_call(&c, &a[i], &a[j]), "no earlier element satisfies comp(earlier, later)");
+}
+
+/* array_concat: the result is the arguments' elements in order (class P: loop-free after unrolling 3 fixed-size copies; all values symbolic) */
+void h_arr_concat(void)
+{
+	struct arr2 a; struct arr3 b; struct arr1 c;
+	for (int i = 0; i < 2; i++) a._stor[i] = (int)nondet_size_t();
+	for (int i = 0; i < 3; i++) b._stor[i] = (int)nondet_size_t();
+	c._stor[0] = (int)nondet_size_t();
+	struct arr6 r = frgv_frgv_concat(&a, &b, &c);
+	__CPROVER_assert(r._stor[0] == a._stor[0] && r._stor[1] == a._stor[1] && r._stor[2] == b._stor[0] && r._stor[3] == b._stor[1] && r._stor[4] == b._stor[2] && r._stor[5] == c._stor[0],
+	                 "array_concat(a, b, c) is a's elements, then b's, then c's");
+	FRGV_CANARY();
 }
